@@ -16,7 +16,7 @@ VHDL_ASSUME = [
 
 C05_MODULES = ["contracts.core_models", "contracts.c09_arith", "contracts.c09_bounded", "contracts.c05_convert", "contracts.c05_format_cast", "contracts.c05_setters", "contracts.c05_join"]
 
-C13_MODULES = ["contracts.core_models", "contracts.c09_bounded", "contracts.c13_types", "contracts.c13_views"]
+C13_MODULES = ["contracts.core_models", "contracts.c09_bounded", "contracts.c13_types", "contracts.c13_views", "contracts.c13_array"]
 
 C06_MODULES = C05_MODULES + ["contracts.c13_types", "contracts.c13_views", "contracts.c06_names", "contracts.c06_ports", "contracts.c06_stmts", "contracts.c06_literals", "contracts.c02_ops"]
 
@@ -112,7 +112,7 @@ PROPERTIES = {
         ],
     },
     "C14": {
-        "modules": ["contracts.core_models", "contracts.c14_fifo"],
+        "modules": ["contracts.core_models", "contracts.c14_fifo", "contracts.c14_views"],
         "level": "proof",
         "explanation": "step contracts of the REAL methods of std.Fifo and std.Stack over a ghost model of clocked signals, for SYMBOLIC capacity N (power of two or not), index values, memory content and data. Fifo: _next_index(i) == (i+1) mod N; the concurrent block of __init__ drives empty <=> size == 0 and full <=> size == N-1 (capacity N-1); against the queue view size = (wr-rd) mod N, elem(k) = mem[(rd+k) mod N]: push appends the element and keeps every other position, pop returns the oldest element and shifts the rest, push and pop in the same clock (either order) do both -- the inductive step of 'delivers elements in exactly the order they were pushed, without loss or duplication'; locally, for shared and for separate (synchronised) index signals, push writes at and advances the producer's own index, pop / front read at and pop advances the consumer's own index. Stack (both modes): push / pop / front / reset / empty / full / size against the list view, drop-old mode discarding exactly the oldest element on a push to a full stack.",
         "assumptions": COMMON_ASSUME + [
